@@ -924,6 +924,16 @@ func Generate(r *rand.Rand, p Profile) *G {
 	for _, v := range g.Prog.Vars {
 		hasMetaOrigin = hasMetaOrigin || v.Fn == "meta"
 	}
+	if hasMetaOrigin && g.chance(0.2) {
+		// per-currency flags: metadata keys that are spelled like asset codes
+		for k := 1 + g.R.IntN(3); k > 0; k-- {
+			acc := g.pick(g.Accts)
+			if g.In.Meta[acc] == nil {
+				g.In.Meta[acc] = map[string]string{}
+			}
+			g.In.Meta[acc][g.pick(AssetPool)] = "enabled"
+		}
+	}
 	if hasMetaOrigin && g.chance(0.15) {
 		// a set_account_meta that writes what the store already holds (a store that answers a
 		// metadata request with more than was asked lets the interpreter know that)
